@@ -284,6 +284,31 @@ def _class_twins(a):
     return out
 
 
+def check_shared_keys(res, name):
+    """Key names that are valid both as meta and as visual entries ('line', 'textrotate'): an entry in meta and an entry of the
+    same name in visual are different things -- every placement pattern of the two must be told apart."""
+    from regions import RegionMeta, RegionVisual
+    shared = sorted(set(RegionMeta.valid_keys) & set(RegionVisual.valid_keys))
+    res.axis('shared_meta_visual_keys', ','.join(shared))
+    # (meta value, visual value) patterns; None = absent
+    pats = [(None, None), (1, None), (None, 1), (1, 1), (0, 1), (1, 0)]
+    for k in shared:
+        regs = []
+        for mv, vv in pats:
+            r = pool.make(name)
+            if mv is not None:
+                r.meta[k] = mv
+            if vv is not None:
+                r.visual[k] = vv
+            regs.append(r)
+        for i, a in enumerate(regs):
+            for j, b in enumerate(regs):
+                res.evaluations += 1
+                _eq_calls(res, {'op': 'shared_keys', 'name': name, 'key': k, 'a': list(pats[i]), 'b': list(pats[j])}, a, b, i == j,
+                          f'{type(a).__name__}: {k!r} as (meta, visual) = {pats[i]} vs {pats[j]}')
+        res.nontriv(('shared_keys', name, k))
+
+
 def check_cross(res, n1, n2):
     case = {'op': 'cross', 'a': n1, 'b': n2}
     a, b = pool.make(n1), pool.make(n2)
@@ -695,6 +720,8 @@ def run_shard(shard, tier, seed):
         res.states += 1
         check_basic(res, n)
         res.states += 1
+        check_shared_keys(res, n)
+        res.states += 1
         check_pix_tolerance(res, n)
         for p in perturbations(n):
             res.states += 1
@@ -726,6 +753,8 @@ def replay(case):
         check_perturbation(res, case['name'], case['label'])
     elif op == 'basic':
         check_basic(res, case['name'])
+    elif op == 'shared_keys':
+        check_shared_keys(res, case['name'])
     elif op == 'pixtol':
         check_pix_tolerance(res, case['name'], case['scale'], case['rel'])
     elif op == 'cross':
